@@ -370,6 +370,11 @@ class Seq(object):
     if want is not None and not self.stopped:
       took = set(k for k, v in self.entries.items() if any(e['id'] == self.nid for e in v[n0.get(k, 0):]))
       self.counters['routing_evaluations'] = self.counters.get('routing_evaluations', 0) + 1
+      if self.settings.DESTINATION_POOL_REPLICAS:
+        # connections to the same host:port form a pool: one member of the pool of every named destination takes the datapoint
+        pool = lambda key: key if key == 'fake' else key.rsplit(':', 1)[0]
+        if len(took) == len(set(pool(k) for k in took)):
+          took, want = set(pool(k) for k in took), set(pool(k) for k in want)
       if took != want:
         self.viol('routing/not-where-the-router-says', 'id %d (%r) was handed to %r, the router names %r (live destinations %r)' % (
           self.nid, name, sorted(took), sorted(want), sorted(self._fname(d) for d in self.dests if self.manager.router.hasDestination(d))))
